@@ -42,6 +42,20 @@ func loadConfig(body string) stgutg.Conf {
 		panic(err)
 	}
 	defer os.RemoveAll(dir)
+	// decoys: files a configuration could also be looked for in (the README's src/config.yaml, the parent directory, other
+	// spellings) hold a distinctive value for every key; only ./config.yaml is the configuration
+	top := dir
+	dir = filepath.Join(dir, "run")
+	for _, d := range []string{"src/config.yaml", "config.yml", "conf/config.yaml", "../config.yaml", "config.yaml.bak", "stgutg.yaml"} {
+		f := filepath.Join(dir, d)
+		if err := os.MkdirAll(filepath.Dir(f), 0o755); err != nil {
+			panic(err)
+		}
+		if err := os.WriteFile(f, []byte(decoyConfig()), 0o644); err != nil {
+			panic(err)
+		}
+	}
+	_ = top
 	if err := os.WriteFile(filepath.Join(dir, "config.yaml"), []byte(body), 0o644); err != nil {
 		panic(err)
 	}
@@ -56,6 +70,25 @@ func loadConfig(body string) stgutg.Conf {
 	var c stgutg.Conf
 	c.GetConfiguration()
 	return c
+}
+
+// decoyConfig: every key of the configuration structure with a value no generated configuration uses
+func decoyConfig() string {
+	t := reflect.TypeOf(stgutg.Conf{}.Configuration)
+	var b strings.Builder
+	b.WriteString("configuration:\n")
+	for i := 0; i < t.NumField(); i++ {
+		tag := t.Field(i).Tag.Get("yaml")
+		if tag == "" {
+			continue
+		}
+		if t.Field(i).Type.Kind() == reflect.String {
+			b.WriteString("  " + tag + ": \"decoy-" + tag + "\"\n")
+		} else {
+			b.WriteString("  " + tag + ": 4242\n")
+		}
+	}
+	return b.String()
 }
 
 func confReport(c stgutg.Conf) string {
